@@ -2,7 +2,7 @@
 // cookie different from the stored one never returns data and never removes
 // anything. Real `weed master` + `weed volume`; PUT/POST/GET/HEAD/DELETE on
 // /<vid>,<key><cookie> with right and wrong cookies in seeded random histories.
-// Run with `./check C01HTTP`; reports under property id "C01H".
+// Run by the C01 driver as a child process (VERIF_BIN_C01HTTP); its counts are merged into evidence/C01.json.
 package main
 
 import (
@@ -193,7 +193,7 @@ func (w *world) apply(files []*hfile, o *hop, hist []hop) {
 }
 
 func main() {
-	r := lib.Start("C01H", "exploration")
+	r := lib.Start("C01", "exploration") // runs as a child of the C01 driver (HTTP-level cookie clause)
 	r.SetRule("seeded random histories of PUT/POST/GET/HEAD/DELETE on /<vid>,<key><cookie> against a real volume server over 3 file ids, each read/delete presented with the stored cookie or one of 6 wrong-cookie variants (bit flips, +1, 0, ffffffff, rotation); payloads empty and non-empty. distinct = distinct history (op, file, cookie variant sequence); non-trivial = the history contains a wrong-cookie GET/HEAD/DELETE on a live blob")
 	r.Assume("only the cookie clause of C01 is judged here: a wrong-cookie GET/HEAD must not answer 200/206 nor contain the content, and after a wrong-cookie DELETE the stored cookie must still read the unchanged content")
 
